@@ -110,6 +110,19 @@ def gen_cases(ctx, scale=1.0):
             c['refuse'] = [rng.choice(['reader', 'janitor'] + [f'hasher{i+1}' for i in range(threads)])]
             c['fault'] = 'refuse-' + ('vital' if c['refuse'][0] in ('hasher1', 'janitor') else 'other')
         cases.append(c)
+    # 3. a content file that cannot be read as recorded (its size changed after the torrent was made): the reader's
+    #    generator yields an error item, which a hashing run must raise whatever the callback and the reporting interval
+    for _ in range(int(ctx.n(150, 4000) * scale)):
+        threads = rng.choice([1, 2, 3])
+        cap = 3 * threads
+        c = base(threads, rng.choice([2, cap, cap + 3, 3 * cap]), 'generate')
+        for i in rng.sample(range(len(c['sizes'])), rng.choice([1, 1, 2]) if len(c['sizes']) > 1 else 1):
+            if c['sizes'][i] > 0:
+                c['disk'][i] = rng.choice([c['sizes'][i] + 1] + ([c['sizes'][i] - 1] if c['sizes'][i] > 1 else []))
+        c['cb'] = rng.choice([None, {'table': {}}])
+        c['interval'] = rng.choice([0, 0.125, 1.0, 1000.0])
+        c['fault'] = 'file-size-changed'
+        cases.append(c)
     return cases
 
 
@@ -156,6 +169,12 @@ def judge(ctx, c, case, obs, rep, c02reply, prop):
     if obs['fault_fired'] and c.get('read_fault_kind') == 'oserror' and not cb_raised:
         if not ('raised' in res and res['raised'].get('kind') == 'read'):
             problems.append(f'a content file failed to read but the caller got {res} instead of the read error')
+            tags.append('result')
+    if c.get('fault') == 'file-size-changed' and c02reply is not None and c02reply['bad']:
+        exp = c03.expected_outcome(c, c02reply)
+        if obs['outcome'] == 'done' and not c03._match_expected(exp, obs['result']):
+            problems.append(f'a content file cannot be read as recorded but the caller got {res} instead of its error '
+                            f'(interval {c.get("interval")})')
             tags.append('result')
     if 'raised' in res and res['raised'].get('kind') == 'spin':
         problems.append('persistent MemoryError: the reader keeps retrying the read forever instead of giving up with the read error')
@@ -215,7 +234,7 @@ def judge(ctx, c, case, obs, rep, c02reply, prop):
 
 
 def evaluate(ctx, drv, cases):
-    vidx = [i for i, c in enumerate(cases) if c['mode'] == 'verify']
+    vidx = [i for i, c in enumerate(cases) if c03.needs_c02(c)]
     c02 = drv.run([{'op': 'c02.verify', 'L': cases[i]['L'], 'sizes': cases[i]['sizes'], 'disk': cases[i]['disk'],
                     'flips': cases[i]['flips'], 'single': False, 'pathIsDir': True} for i in vidx])
     c02by = dict(zip(vidx, c02))
@@ -240,7 +259,8 @@ def evaluate(ctx, drv, cases):
         case = {k: c[k] for k in ('mode', 'L', 'sizes', 'paths', 'cseed', 'threads', 'disk', 'flips', 'cb',
                                   'interval', 'strategy', 'max_steps', 'refuse', 'read_fault') if c.get(k) is not None}
         fired = bool(obs['fault_fired']) or any(cl['done'] in [int(k) for k in ((c.get('cb') or {}).get('table') or {})]
-                                                for cl in obs['calls']) or bool(c.get('refuse'))
+                                                for cl in obs['calls']) or bool(c.get('refuse')) or \
+            c.get('fault') == 'file-size-changed'
         ctx.case(key=json.dumps(case, sort_keys=True), nontrivial=fired and c['threads'] >= 1,
                  kind=f"{c.get('fault')}/{c['mode']}/N{c['threads']}")
         if fired:
@@ -262,7 +282,12 @@ def run(ctx, drv):
 
 
 def search(ctx, drv):
-    evaluate(ctx, drv, gen_cases(ctx, scale=2.0))
+    # a structural deviation seen by the correspondence check (e.g. a bounded hash queue) first gets cases aimed at it
+    d = c03.directed_cases(ctx)
+    if d:
+        c03.evaluate_directed(ctx, drv, d)
+    if not ctx.violations:
+        evaluate(ctx, drv, gen_cases(ctx, scale=2.0))
 
 
 def replay(ctx, drv, rp):
